@@ -57,7 +57,8 @@ RULE = ("case family = index % 4.  pregroup: vocabulary of 2-6 words with "
         "function); non-trivial = >= 3 rule boxes with a side that is not a "
         "single atom. ccg: 6 random category strings, three random trees of depth "
         "<= 4 with fa/ba/fc/unary/other rules and features; non-trivial = tree "
-        "with >= 3 rule nodes.  Distinct by the repr of the generated inputs.")
+        "with >= 3 rule nodes.  Distinct by the repr of the generated inputs."
+        "  Also: parser targets written as plain monoidal.Ty (equal and near-miss); bare application boxes curried with every n_wires.")
 SIZES = {"quick": (16, 160), "thorough": (16, 3000)}
 TIMEOUT = {"quick": 600, "thorough": 5400}
 COVER = {     # measured: every anchored line is hit, on every seed
